@@ -15,6 +15,7 @@ import (
 	"github.com/nspcc-dev/neo-go/pkg/core/block"
 	"github.com/nspcc-dev/neo-go/pkg/core/mpt"
 	"github.com/nspcc-dev/neo-go/pkg/core/statesync"
+	"github.com/nspcc-dev/neo-go/pkg/core/transaction"
 	"github.com/nspcc-dev/neo-go/pkg/crypto/hash"
 	"github.com/nspcc-dev/neo-go/pkg/io"
 	"github.com/nspcc-dev/neo-go/pkg/util"
@@ -27,12 +28,12 @@ type c20SrcParams struct {
 }
 
 type c20SOp struct {
-	Op  string `json:"op"`            // hdr | nodes | req | restart | bad | blk
+	Op  string `json:"op"`            // hdr | nodes | req | restart | bad | blk | badblk
 	To  uint32 `json:"to,omitempty"`  // hdr: deliver headers up to this index
 	IDs []int  `json:"ids,omitempty"` // nodes: node ids (first-visit pre-order of the source trie)
 	Max int    `json:"max,omitempty"` // req: at most this many of the requested nodes (0 = all) ...
 	Sel int    `json:"sel,omitempty"` // ... starting at this offset (mod count) of the sorted request
-	Bad string `json:"bad,omitempty"` // bad: foreign | inline | trunc | flip | trail | empty
+	Bad string `json:"bad,omitempty"` // bad: foreign | inline | trunc | flip | trail | empty; badblk: strip | drop | reorder | replace | hdr | genuine
 	ID  int    `json:"id,omitempty"`  // bad: node the data is derived from
 	X   int    `json:"x,omitempty"`   // bad: position / which child
 	I   uint32 `json:"i,omitempty"`   // blk: block index
@@ -84,7 +85,9 @@ type c20Sync struct {
 	impl   c20SImpl
 	viol   []string // direct violations (note)
 	dead   bool
-	inline bool // an inline-child node was accepted
+	inline bool     // an inline-child node was accepted
+	badq   []c20SOp // wrong blocks to offer in the blocks stage, one per block of the window, before the genuine one
+	blkObs []string // what happened to them, in model terms
 }
 
 func (c *c20Sync) violate(f string, a ...any) {
@@ -386,6 +389,8 @@ func (c *c20Sync) run() {
 			c.restart()
 		case "bad":
 			c.bad(op)
+		case "badblk":
+			c.badq = append(c.badq, op)
 		case "blk":
 			if op.I == 0 || op.I > c.src.height {
 				continue
@@ -458,6 +463,16 @@ func (c *c20Sync) finish() {
 			return
 		}
 		for i := c.mod.BlockHeight() + 1; i <= c.P; i++ {
+			if len(c.badq) > 0 {
+				op := c.badq[0]
+				c.badq = c.badq[1:]
+				if !c.badBlock(i, op) {
+					return
+				}
+				if !c.mod.IsActive() || c.mod.BlockHeight() >= i {
+					continue // it was the genuine block (control): accepted
+				}
+			}
 			var err error
 			if p := catch(func() { err = c.mod.AddBlock(c.src.block(i)) }); p != "" {
 				c.violate("AddBlock(%d) panics%s: %s", i, c.inlineNote(), p)
@@ -506,6 +521,33 @@ func (c *c20Sync) finish() {
 	}); p != "" {
 		c.violate("walking the synchronised trie panics%s: %s", c.inlineNote(), p)
 	}
+	// the blocks of the traceable window, as stored by the blocks stage, with their transactions
+	lo := uint32(1)
+	if c.P > c20Traceable {
+		lo = c.P - c20Traceable + 1
+	}
+	for i := lo; i <= c.P; i++ {
+		want := c.src.block(i)
+		got, err := bc.GetBlock(bc.GetHeaderHash(i))
+		if err != nil || got.Hash() != want.Hash() || len(got.Transactions) != len(want.Transactions) {
+			n := -1
+			if got != nil {
+				n = len(got.Transactions)
+			}
+			c.violate("block %d of the synchronised window is not the source's block with its %d transactions (stored: %d transactions, error %v)", i, len(want.Transactions), n, err)
+			break
+		}
+		for k := range want.Transactions {
+			if got.Transactions[k].Hash() != want.Transactions[k].Hash() {
+				c.violate("block %d of the synchronised window holds another transaction at position %d than the source's block", i, k)
+				break
+			}
+			if tx, hh, err := bc.GetTransaction(want.Transactions[k].Hash()); err != nil || hh != i || tx.Hash() != want.Transactions[k].Hash() {
+				c.violate("transaction %d of block %d of the synchronised window cannot be looked up (height %d, error %v)", k, i, hh, err)
+				break
+			}
+		}
+	}
 	// lock step with the source from here on
 	for i := c.P + 1; i <= c.src.height; i++ {
 		var err error
@@ -545,7 +587,7 @@ func (c *c20Sync) coq() string {
 		ops = append(ops, e.Coq)
 		obs = append(obs, fmt.Sprintf("(%s,%s,%s)", coqBool(e.Err), coqBool(e.Panic != ""), c20Ints(e.Unknown)))
 	}
-	return fmt.Sprintf("CSync 0 %s %s %s", coqList(tree), coqList(ops), coqList(obs))
+	return fmt.Sprintf("CSync 0 %s %s %s %s", coqList(tree), coqList(ops), coqList(obs), coqList(c.blkObs))
 }
 
 func c20GenSync(r *rng, src c20SrcParams, thorough bool) c20SInput {
@@ -599,6 +641,10 @@ func c20GenSync(r *rng, src c20SrcParams, thorough bool) c20SInput {
 			add(c20SOp{Op: "blk", I: uint32(1 + r.intn(src.Height))})
 		}
 	}
+	// blocks stage: wrong transaction lists under the genuine header, offered before the genuine block
+	for j := r.intn(5); j > 0; j-- {
+		add(c20SOp{Op: "badblk", Bad: pick(r, []string{"strip", "strip", "drop", "reorder", "replace", "hdr", "genuine"}), X: r.intn(100)})
+	}
 	// blocks stage: sometimes out of order / duplicated / interrupted
 	if r.chance(50) {
 		for j := 0; j < 1+r.intn(5); j++ {
@@ -633,6 +679,12 @@ func c20RunSyncCase(co *caseOut, raw json.RawMessage) error {
 	if !c.impl.Finished {
 		tag += "+unfinished"
 	}
+	for _, o := range c.blkObs {
+		if !strings.HasPrefix(o, "(0,") {
+			tag += "+badblk"
+			break
+		}
+	}
 	co.add("sync", tag, len(c.impl.Exec) >= 3, in, c.impl, c.coq())
 	return nil
 }
@@ -642,7 +694,7 @@ func init() { register("c20sync", runC20Sync) }
 const c20SyncRule = "sync: source chains built with neotest (storage contract with clustered keys and repeated values, puts and deletes), " +
 	"every admissible sync point, headers in one or several batches, MPT nodes by request subsets / arbitrary ids / duplicates, wrong data " +
 	"(foreign leaf, node with an inline child, truncated, bit-flipped, trailing byte, EmptyNode), restarts (Close + reopen on LevelDB + Init) in every " +
-	"stage, blocks in and out of order; a case is non-trivial when at least three operations reached the MPT stage"
+	"stage, blocks in and out of order, blocks of the window with a stripped / shortened / reordered / foreign transaction list under the genuine header; a case is non-trivial when at least three operations reached the MPT stage"
 
 func runC20Sync(args []string) error {
 	cf, fs := parseCommon("c20sync", args)
@@ -688,4 +740,88 @@ func runC20Sync(args []string) error {
 		}
 	}
 	return co.finish()
+}
+
+// offer a wrong version of block i (genuine header, other transaction list) in the blocks stage; false = stop
+func (c *c20Sync) badBlock(i uint32, op c20SOp) bool {
+	src := c.src.block(i)
+	b := *src
+	txs := append([]*transaction.Transaction{}, src.Transactions...)
+	variant := op.Bad
+	switch op.Bad {
+	case "strip":
+		txs = nil
+	case "drop":
+		if len(txs) > 0 {
+			k := op.X % len(txs)
+			txs = append(txs[:k:k], txs[k+1:]...)
+		}
+	case "reorder":
+		if len(txs) > 1 {
+			k := op.X % (len(txs) - 1)
+			txs[k], txs[k+1] = txs[k+1], txs[k]
+		}
+	case "replace":
+		if len(txs) > 0 {
+			var other *transaction.Transaction
+			for j := uint32(1); j <= c.src.height && other == nil; j++ {
+				if j != i && len(c.src.block(j).Transactions) > 0 {
+					other = c.src.block(j).Transactions[0]
+				}
+			}
+			if other != nil {
+				txs[op.X%len(txs)] = other
+			}
+		}
+	case "hdr": // the genuine transactions under a header that is not the synchronised one (fresh struct: no cached hash)
+		h := src.Header
+		b = block.Block{Header: block.Header{Version: h.Version, PrevHash: h.PrevHash, MerkleRoot: h.MerkleRoot, Timestamp: h.Timestamp + 1,
+			Nonce: h.Nonce, Index: h.Index, NextConsensus: h.NextConsensus, Script: h.Script, StateRootEnabled: h.StateRootEnabled,
+			PrevStateRoot: h.PrevStateRoot, PrimaryIndex: h.PrimaryIndex}}
+		if b.Hash() == src.Hash() {
+			panic("altered header has the hash of the genuine one")
+		}
+	default:
+		variant = "genuine"
+	}
+	b.Transactions = txs
+	same := len(txs) == len(src.Transactions)
+	for k := 0; same && k < len(txs); k++ {
+		same = txs[k].Hash() == src.Transactions[k].Hash()
+	}
+	if same && op.Bad != "hdr" {
+		variant = "genuine" // nothing to change in this block (e.g. it has no transactions): the control case
+	}
+	before := c.mod.BlockHeight()
+	var err error
+	if p := catch(func() { err = c.mod.AddBlock(&b) }); p != "" {
+		c.violate("AddBlock panics on a block with a wrong transaction list (%s): %s", variant, p)
+		c.dead = true
+		return false
+	}
+	after := before
+	if c.mod.IsActive() {
+		after = c.mod.BlockHeight()
+	} else {
+		after = c.bolt.bc.BlockHeight()
+	}
+	accepted := err == nil && after == before+1
+	c.blkObs = append(c.blkObs, fmt.Sprintf("(%d,%d,%d,%s)", map[string]int{"genuine": 0, "strip": 1, "drop": 2, "reorder": 3, "replace": 4, "hdr": 5}[variant],
+		len(src.Transactions), len(txs), coqBool(accepted)))
+	if variant != "genuine" {
+		if accepted {
+			c.violate("blocks stage accepts a block that is not the source chain's block of that index (%s: block %d, %d of %d transactions delivered)", variant, i, len(txs), len(src.Transactions))
+			return false
+		}
+		if after != before {
+			c.violate("a refused block changed the height of the blocks stage (%d -> %d)", before, after)
+			return false
+		}
+		// (a header-only record of an empty block is indistinguishable from the block through GetBlock, so "nothing was
+		// stored" is observed through the stage's height and, after the jump, through the window comparison)
+	} else if !accepted {
+		c.violate("blocks stage refuses the genuine block %d: %v", i, err)
+		return false
+	}
+	return true
 }
